@@ -583,3 +583,12 @@ pub fn bypass<R>(f: impl FnOnce() -> R) -> R {
     let _b = Bypass::new();
     f()
 }
+
+/// per-task ACTIVE flag support for the concurrent build: coroutines share the OS thread, so the
+/// scheduler saves / restores the flag at every context switch.
+pub fn get_active() -> bool {
+    active()
+}
+pub fn set_active(v: bool) {
+    ACTIVE.with(|a| a.set(v));
+}
